@@ -224,24 +224,29 @@ void case_buffer(Ctx &c) {
     if (!start && off >= size && c.t.coin()) start = true;
     // a stale offset must not matter for a start
     if (start) { if (dom) dom->Offset = c.t.below(size + 1); if (str) str->Offset = c.t.below(size + 1); off = 0; }
-    uint32_t m = std::min(len, size - off);
-    uint8_t *buf = (uint8_t *)malloc(len + 1);   // exact: ASan catches any access beyond len+1
+    // "everything that is left": a continued access may ask for up to 2^32-1 bytes; the object's size limits what is moved (derived from values
+    // already drawn, no tape choice); the buffer then holds exactly the remaining bytes
+    bool rest = !start && (len + size) % 5 == 0; if (rest) c.cls("buffer-continue-asks-for-all-that-is-left");
+    uint32_t req = rest ? 0xFFFFFFFFu - (len % 3) : len;
+    uint32_t m = std::min(req, size - off);
+    uint32_t cap = rest ? m : len;
+    uint8_t *buf = (uint8_t *)malloc(cap + 1);   // exact: ASan catches any access beyond cap+1
     edge_reset();
     if (!write) {
-      memset(buf, 0xEE, len + 1);
-      CO_ERR e = start ? CODictRdBuffer(cod, CO_DEV(0x2000, 0), buf, len) : COObjRdBufCont(&arr[0], s.node, buf, len);
-      VLOG(c, "%s read len %u at offset %u -> %d", start ? "start" : "continue", len, off, e);
-      CHECK(c, e == CO_ERR_NONE, "buffer-read", "buffer read (len %u, size %u) failed with %d", len, size, e);
-      for (uint32_t k = 0; k < m; k++) CHECK(c, buf[k] == ref[off + k], "buffer-read-exact", "buffer read of %u bytes at offset %u from an object of %u bytes: byte %u is %02X, object holds %02X (exactly min(len, size-offset) = %u bytes must be moved)", len, off, size, k, buf[k], ref[off + k], m);
-      for (uint32_t k = m; k < len + 1; k++) CHECK(c, buf[k] == 0xEE, "buffer-read-exact", "buffer read of %u bytes at offset %u from an object of %u bytes wrote buffer byte %u (only %u bytes may be moved)", len, off, size, k, m);
+      memset(buf, 0xEE, cap + 1);
+      CO_ERR e = start ? CODictRdBuffer(cod, CO_DEV(0x2000, 0), buf, req) : COObjRdBufCont(&arr[0], s.node, buf, req);
+      VLOG(c, "%s read len %u at offset %u -> %d", start ? "start" : "continue", req, off, e);
+      CHECK(c, e == CO_ERR_NONE, "buffer-read", "buffer read (len %u, size %u) failed with %d", req, size, e);
+      for (uint32_t k = 0; k < m; k++) CHECK(c, buf[k] == ref[off + k], "buffer-read-exact", "buffer read of %u bytes at offset %u from an object of %u bytes: byte %u is %02X, object holds %02X (exactly min(len, size-offset) = %u bytes must be moved)", req, off, size, k, buf[k], ref[off + k], m);
+      for (uint32_t k = m; k < cap + 1; k++) CHECK(c, buf[k] == 0xEE, "buffer-read-exact", "buffer read of %u bytes at offset %u from an object of %u bytes wrote buffer byte %u (only %u bytes may be moved)", req, off, size, k, m);
       CHECK(c, !memcmp(store, ref.data(), size), "buffer-read-exact", "a buffer read changed the object");
     } else {
-      for (uint32_t k = 0; k < len + 1; k++) buf[k] = (uint8_t)r.next();
-      CO_ERR e = start ? CODictWrBuffer(cod, CO_DEV(0x2000, 0), buf, len) : COObjWrBufCont(&arr[0], s.node, buf, len);
-      VLOG(c, "%s write len %u at offset %u -> %d", start ? "start" : "continue", len, off, e);
-      CHECK(c, e == CO_ERR_NONE, "buffer-write", "buffer write (len %u, size %u) failed with %d", len, size, e);
+      for (uint32_t k = 0; k < cap + 1; k++) buf[k] = (uint8_t)r.next();
+      CO_ERR e = start ? CODictWrBuffer(cod, CO_DEV(0x2000, 0), buf, req) : COObjWrBufCont(&arr[0], s.node, buf, req);
+      VLOG(c, "%s write len %u at offset %u -> %d", start ? "start" : "continue", req, off, e);
+      CHECK(c, e == CO_ERR_NONE, "buffer-write", "buffer write (len %u, size %u) failed with %d", req, size, e);
       for (uint32_t k = 0; k < m; k++) ref[off + k] = buf[k];
-      for (uint32_t k = 0; k < size; k++) CHECK(c, store[k] == ref[k], "buffer-write-exact", "buffer write of %u bytes at offset %u into an object of %u bytes: object byte %u is %02X, expected %02X (exactly %u bytes must be moved)", len, off, size, k, store[k], ref[k], m);
+      for (uint32_t k = 0; k < size; k++) CHECK(c, store[k] == ref[k], "buffer-write-exact", "buffer write of %u bytes at offset %u into an object of %u bytes: object byte %u is %02X, expected %02X (exactly %u bytes must be moved)", req, off, size, k, store[k], ref[k], m);
     }
     off += m; if (len > 255) big = true;
     free(buf); c.ops++;
